@@ -63,9 +63,9 @@ void harness (void)
         VH_CHECK ("validate.image_not_dirty_afterwards", !img->common.dirty);
         VH_CHECK ("validate.alpha_map_not_dirty_afterwards", !am || !am->common.dirty);
         /* the hand-built non-gradient images use the counting hook; gradients the real gradient hook */
-        expect_calls = ((a.dirty && !ih_is_gradient_type (a.type)) ? 1 : 0) + ((am && m.dirty) ? 1 : 0);
+        expect_calls = ((a.dirty && !ih_is_gradient_type (a.type) && !a.no_hook) ? 1 : 0) + ((am && m.dirty && !m.no_hook) ? 1 : 0);
         VH_CHECK ("validate.property_changed_hook_exactly_once_per_dirty_image", ih_pc_calls == expect_calls);
-        if (a.dirty && !ih_is_gradient_type (a.type) && !(am && m.dirty))
+        if (a.dirty && !ih_is_gradient_type (a.type) && !a.no_hook && !(am && m.dirty && !m.no_hook))
             VH_CHECK ("validate.hook_runs_after_the_flags_are_recomputed",
                       ih_pc_flags_seen == img->common.flags && ih_pc_dirty_seen);
         if (!a.dirty)
